@@ -15,6 +15,7 @@ require (
 	github.com/pion/randutil v0.1.0 // indirect
 	golang.org/x/mod v0.41.0 // indirect
 	golang.org/x/sync v0.23.0 // indirect
+	golang.org/x/time v0.14.0 // indirect
 )
 
 replace github.com/pion/interceptor => /repo
